@@ -190,11 +190,16 @@ PROPS["C02"] = dict(
               "SqlVerif.Props.C02Parser.fuel_irrelevant_script", "SqlVerif.Props.C02Parser.pratt_work_polynomial",
               "SqlVerif.Props.C02Parser.pratt_work_amortised", "SqlVerif.Props.C02Parser.pratt_no_panic",
               "SqlVerif.Props.C02Parser.query_no_panic", "SqlVerif.Props.C02Parser.comma_separated_nonempty",
-              "SqlVerif.Props.C02Parser.limit_unwrap_guarded", "SqlVerif.Props.C02Parser.quant_keyword_guarded"],
+              "SqlVerif.Props.C02Parser.limit_unwrap_guarded", "SqlVerif.Props.C02Parser.quant_keyword_guarded",
+              "SqlVerif.Props.C02Parser.dml_never_out_of_fuel", "SqlVerif.Props.C02Parser.dml_script_never_out_of_fuel",
+              "SqlVerif.Props.C02Parser.dml_never_out_of_fuel_all", "SqlVerif.Props.C02Parser.dml_column_type_never_out_of_fuel",
+              "SqlVerif.Props.C02Parser.dml_fuel_irrelevant", "SqlVerif.Props.C02Parser.dml_fuel_irrelevant_of_need",
+              "SqlVerif.Props.C02Parser.dml_fuel_irrelevant_script", "SqlVerif.Props.C02Parser.dml_fuel_irrelevant_script_of_need",
+              "SqlVerif.Props.C02Parser.dml_no_panic"],
     corr=["tok", "cursor"],
     unique_output={"tok": True, "cursor": False},
     oracle=["C02"],
-    level_text="Proved in Lean on the tokenizer model (tied to the code by the tok stream, >1M requests, 0 disagreements): tokenizing is total, makes at most |s|+1 token steps and consumes every character exactly once (linear work), and each panic site of the real tokenizer (matching_end_quote, the exponent unwrap, the single-line-comment assert, the keyword index) is unreachable for every input under the 13 built-in dialect records (side conditions decided on the tabulated dialect rows). The cursor operations never index out of range and prev_token panics exactly at abstract position 0 (cursor refinement theorem, C07), and call depth is bounded by the recursion limit (C03 certificate). Every panic/unwrap/unreachable/assert/index site of parser, tokenizer, dialects and AST code is inventoried from source on every run; a new or changed site is an open obligation. Parser fragment (Props/C02Parser.lean; models Model/Pratt.lean and Model/Query.lean with the parse_statements loop, tied by the streams chains/ladder/queries): for every configuration record, recursion limit and token list the modelled parser terminates - with fuel >= need(n, limit) = 2n+5 (n = token count; independent of the limit because every cycle of the modelled call graph consumes a token; tight up to +2) no run of parse_expr / parse_subexpr / parse_statement / a script ends in the model's out-of-fuel value; a run that does not end out of fuel is repeated verbatim under every larger fuel (fuel irrelevance, so the for-every-fuel theorems of C01/C04/C05/C11/C12/C13 speak about one outcome per input); the expression parser makes at most 4n+2 calls of its five mutually recursive functions (fewer than 4 per consumed token on success), i.e. linear work; the outcome is a tree with a strictly shorter rest or one of the error values RecursionLimitExceeded / ParserError / outside-the-fragment, and the guards of the unwrap/unreachable sites inside modelled functions (parse_comma_separated returns >= 1 element, limit.unwrap() in parse_query, ALL/ANY/SOME in parse_infix) hold on every path of the model. The deep oracle additionally checks real cursor steps <= 16 * need(tokens, limit) on the chain/list/nesting families that lie inside the fragment (signature work-bound/<family>). Partial: the parser's unreachable!/unwrap sites outside the modelled code and super-linear backtracking are decided by search on the real code (prefixes, deletions, duplications, splices of every corpus text, fragment soup, deep chains and nestings in child processes, under a cursor-step budget from the hook).",
+    level_text="Proved in Lean on the tokenizer model (tied to the code by the tok stream, >1M requests, 0 disagreements): tokenizing is total, makes at most |s|+1 token steps and consumes every character exactly once (linear work), and each panic site of the real tokenizer (matching_end_quote, the exponent unwrap, the single-line-comment assert, the keyword index) is unreachable for every input under the 13 built-in dialect records (side conditions decided on the tabulated dialect rows). The cursor operations never index out of range and prev_token panics exactly at abstract position 0 (cursor refinement theorem, C07), and call depth is bounded by the recursion limit (C03 certificate). Every panic/unwrap/unreachable/assert/index site of parser, tokenizer, dialects and AST code is inventoried from source on every run; a new or changed site is an open obligation. Parser fragment (Props/C02Parser.lean; models Model/Pratt.lean and Model/Query.lean with the parse_statements loop, tied by the streams chains/ladder/queries): for every configuration record, recursion limit and token list the modelled parser terminates - with fuel >= need(n, limit) = 2n+5 (n = token count; independent of the limit because every cycle of the modelled call graph consumes a token; tight up to +2) no run of parse_expr / parse_subexpr / parse_statement / a script ends in the model's out-of-fuel value; a run that does not end out of fuel is repeated verbatim under every larger fuel (fuel irrelevance, so the for-every-fuel theorems of C01/C04/C05/C11/C12/C13 speak about one outcome per input); the expression parser makes at most 4n+2 calls of its five mutually recursive functions (fewer than 4 per consumed token on success), i.e. linear work; the outcome is a tree with a strictly shorter rest or one of the error values RecursionLimitExceeded / ParserError / outside-the-fragment, and the guards of the unwrap/unreachable sites inside modelled functions (parse_comma_separated returns >= 1 element, limit.unwrap() in parse_query, ALL/ANY/SOME in parse_infix) hold on every path of the model. The deep oracle additionally checks real cursor steps <= 16 * need(tokens, limit) on the chain/list/nesting families that lie inside the fragment (signature work-bound/<family>). The same holds for the statement model (Model/Dml.lean: INSERT / UPDATE / DELETE / CREATE TABLE / DROP TABLE / VALUES, column types through the data-type model, stream dml): with the same need(n) = 2n+5 no statement and no script runs out of fuel - the ad-hoc loops of parse_columns and parse_column_def consume a token per round -, runs are fuel-irrelevant and value-only (dml_never_out_of_fuel, dml_script_never_out_of_fuel, dml_fuel_irrelevant, dml_no_panic). Partial: the parser's unreachable!/unwrap sites outside the modelled code and super-linear backtracking are decided by search on the real code (prefixes, deletions, duplications, splices of every corpus text, fragment soup, deep chains and nestings in child processes, under a cursor-step budget from the hook).",
     level_note="Trusted: Lean kernel; tokenizer and cursor models; the step counter hook (cursor operations as the work measure); wall time, allocation and real stack bytes are measured, not modelled. The modelled fragment contains no re-parse: the speculative sites of parse_prefix (typed-string probe, lambda probe, parenthesised-subquery probe) and the derived-table-vs-nested-join fall-back of parse_table_factor are modelled by their non-recursive outcome and answer outside-the-fragment where they would re-parse, so the exponential families (POSITION nesting, parenthesised FROM items) and the ~300 unmodelled parser functions stay search-only; for the query layer the call depth is proved linear but the number of calls is not instrumented (expression layer only). Known findings: deep left spines overflow the stack in Display/Debug/Clone/Eq/Drop; POSITION-as-function backtracking is exponential.",
     technique="Lean 4 theorems on the tokenizer model (totality, linear work, unreachable panic sites) and on the expression/query parser models (termination with an explicit fuel bound, fuel irrelevance, linear call count, value-only outcomes) + panic-site inventory + budgeted mutation/deep-input oracle with child-process isolation",
     trusted_base=["Model/Tokenizer.lean, Model/Cursor.lean (hand-written, tied by streams)", "Model/Pratt.lean, Model/Query.lean, Model/Stmts.lean (hand-written, tied by the streams chains/ladder/queries); the call counter Pratt.costSubexpr is a definition of Lemmas/PrattFuel.lean that follows the model's own run", "verif_hooks step counter"],
@@ -328,18 +333,35 @@ PRATT_TB = ["Model/Pratt.lean mirrors src/parser/mod.rs parse_subexpr/parse_pref
             "dialect_of! is modelled as a test on the built-in dialect's name; tree nodes of the model keep the tokens they consumed; the S-expression compared with the real AST forgets them"]
 
 PROPS["C12"] = dict(
-    lean=["SqlVerif.Props.C12"],
-    namespaces=["SqlVerif.Props.C12"],
+    lean=["SqlVerif.Props.C12", "SqlVerif.Props.C12Query"],
+    namespaces=["SqlVerif.Props.C12", "SqlVerif.Props.C12Query"],
     required=["SqlVerif.Props.C12.limit_monotone", "SqlVerif.Props.C12.limit_monotone_expr",
               "SqlVerif.Props.C12.limit_monotone_all", "SqlVerif.Props.C12.limit_stable",
               "SqlVerif.Props.C12.limit_error_is_real", "SqlVerif.Props.C12.limit_tree_is_real",
               "SqlVerif.Props.C12.spec_limit_monotone", "SqlVerif.Props.C12.spec_limit_swallowed_error",
               "SqlVerif.Props.C12.spec_limit_swallowed_tree", "SqlVerif.Props.C12.limit_swallowed",
-              "SqlVerif.Props.C12.spec_limit_propagated", "SqlVerif.Props.C12.fullStatement_fragment"],
+              "SqlVerif.Props.C12.spec_limit_propagated", "SqlVerif.Props.C12.fullStatement_fragment",
+              "SqlVerif.Props.C12Query.query_limit_only_rle", "SqlVerif.Props.C12Query.query_limit_only_rle_all",
+              "SqlVerif.Props.C12Query.query_limit_monotone", "SqlVerif.Props.C12Query.query_limit_ok_below",
+              "SqlVerif.Props.C12Query.query_limit_error_is_real",
+              "SqlVerif.Props.C12Query.dml_limit_only_rle", "SqlVerif.Props.C12Query.dml_limit_monotone",
+              "SqlVerif.Props.C12Query.dml_limit_ok_below", "SqlVerif.Props.C12Query.dml_limit_error_is_real",
+              "SqlVerif.Props.C12Query.dml_column_type_limit_only_rle",
+              "SqlVerif.Props.C12Query.datatype_limit_only_rle", "SqlVerif.Props.C12Query.datatype_limit_monotone",
+              "SqlVerif.Props.C12Query.query_script_limit_only_rle", "SqlVerif.Props.C12Query.query_script_limit_monotone",
+              "SqlVerif.Props.C12Query.query_script_limit_ok_below",
+              "SqlVerif.Props.C12Query.dml_script_limit_only_rle", "SqlVerif.Props.C12Query.dml_script_limit_monotone",
+              "SqlVerif.Props.C12Query.dml_script_limit_ok_below",
+              "SqlVerif.Props.C12Query.expr_limit_irrelevant_above", "SqlVerif.Props.C12Query.limit_irrelevant_above",
+              "SqlVerif.Props.C12Query.dml_limit_irrelevant_above",
+              "SqlVerif.Props.C12Query.query_script_limit_irrelevant_above",
+              "SqlVerif.Props.C12Query.dml_script_limit_irrelevant_above",
+              "SqlVerif.Props.C12Query.query_never_rle_above", "SqlVerif.Props.C12Query.dml_never_rle_above",
+              "SqlVerif.Props.C12Query.fullStatement_query_fragment"],
     corr=["ladder"],
     unique_output={"ladder": False},
     oracle=["C12"],
-    level_text="Proved in Lean on the executable model of the Pratt expression parser with its recursion counter (every parse_subexpr keeps one level, parse_prefix needs a free level for the typed-string probe behind maybe_parse, ::type takes one in parse_data_type), for EVERY configuration record, fuel, context precedence, token list and limits n <= m: the outcome under n is the limit error or is identical (same tree and rest, or the same error message) to the outcome under m (limit_monotone, for all five functions of the mutual block), hence an outcome that is not the limit error is the outcome under every larger limit (limit_stable), a syntax error reported under a small limit is the syntax error of the unlimited run and a tree returned under a small limit is the tree of the unlimited run. The proof is a simultaneous induction on the fuel with the invariant 'a run under n hits the limit or is step for step the run under m'; it goes through because the model contains no place where the limit error of a sub-parse is turned into anything else - the one speculative parse of the fragment (maybe_parse(parse_data_type) at the head of parse_prefix) passes RecursionLimitExceeded on, as the code does since the maybe_parse fix. Why that matters is proved on an abstract language of backtracking parsers with a depth guard: programs built with the propagating maybe_parse are limit-monotone (spec_limit_monotone), for the swallowing one (any Err => no match, the behaviour before the fix) there are kernel-checked counterexamples in which a small limit yields a syntax error, resp. silently another tree (limit_swallowed). The model is tied to the code by stream ladder: parenthesis / NOT / unary / right- and left-nested operands / IN lists / ANY / BETWEEN / LIKE / AT TIME ZONE / IS DISTINCT FROM / casts / broken nests / random nested expressions and their damaged variants x 13 dialects x limits (quick 13 limits 0..50, thorough every limit 0..60), real outcome vs model. Partial: the theorem covers the expression fragment; the whole grammar (every statement kind, every remaining error-discarding site) is decided on the real code by the limit-ladder oracle over every accepted corpus (text, dialect) pair and its truncation before the last token: outcome(n) must be RecursionLimitExceeded or equal to outcome(1000).",
+    level_text="Proved in Lean on the executable model of the Pratt expression parser with its recursion counter (every parse_subexpr keeps one level, parse_prefix needs a free level for the typed-string probe behind maybe_parse, ::type takes one in parse_data_type), for EVERY configuration record, fuel, context precedence, token list and limits n <= m: the outcome under n is the limit error or is identical (same tree and rest, or the same error message) to the outcome under m (limit_monotone, for all five functions of the mutual block), hence an outcome that is not the limit error is the outcome under every larger limit (limit_stable), a syntax error reported under a small limit is the syntax error of the unlimited run and a tree returned under a small limit is the tree of the unlimited run. The proof is a simultaneous induction on the fuel with the invariant 'a run under n hits the limit or is step for step the run under m'; it goes through because the model contains no place where the limit error of a sub-parse is turned into anything else - the one speculative parse of the fragment (maybe_parse(parse_data_type) at the head of parse_prefix) passes RecursionLimitExceeded on, as the code does since the maybe_parse fix. Why that matters is proved on an abstract language of backtracking parsers with a depth guard: programs built with the propagating maybe_parse are limit-monotone (spec_limit_monotone), for the swallowing one (any Err => no match, the behaviour before the fix) there are kernel-checked counterexamples in which a small limit yields a syntax error, resp. silently another tree (limit_swallowed). The model is tied to the code by stream ladder: parenthesis / NOT / unary / right- and left-nested operands / IN lists / ANY / BETWEEN / LIKE / AT TIME ZONE / IS DISTINCT FROM / casts / broken nests / random nested expressions and their damaged variants x 13 dialects x limits (quick 13 limits 0..50, thorough every limit 0..60), real outcome vs model. Partial: the theorem covers the expression fragment; the whole grammar (every statement kind, every remaining error-discarding site) is decided on the real code by the limit-ladder oracle over every accepted corpus (text, dialect) pair and its truncation before the last token: outcome(n) must be RecursionLimitExceeded or equal to outcome(1000). Query and statement fragments (Props/C12Query.lean; models Model/Query.lean and Model/Dml.lean with the parse_statements loop, column types through Model/DataType.lean, tied by the streams queries and dml): for EVERY configuration record, fuel, token list and limits L <= L' the outcome of parse_statement (query statements; INSERT / UPDATE / DELETE / CREATE TABLE / DROP TABLE / VALUES) and of a script under L is the limit error or is identical to the outcome under L' - a tree accepted under L is the tree under every larger limit, a text accepted under L' gives under a smaller limit the same tree or exactly RecursionLimitExceeded, never another tree or a syntax error (*_limit_only_rle, *_limit_monotone, *_limit_ok_below, *_limit_error_is_real); no side condition is needed because the error-discarding sites of the fragment (maybe_parse around the derived table of parse_table_factor, the alias behind it) are modelled as the current code behaves: the limit error is passed on before any other error is replaced; the whole data-type parser of Model/DataType.lean (every recursive arm, any nesting) is limit-monotone as well (datatype_limit_only_rle). Moreover the limit is irrelevant beyond the nesting a text can contain: with the explicit bound B(ts) = |ts| + 3 (expressions |ts| + 2) every limit >= B gives the same outcome and never the limit error (limit_irrelevant_above, dml_limit_irrelevant_above, the script forms, *_never_rle_above), since every recursion level a run holds is paid for by a consumed token except the levels of parse_statement, parse_query / parse_subexpr and the free level of parse_prefix.",
     level_note="Trusted: Lean kernel (axioms propext, Quot.sound); the hand-written Pratt model (validated by the differentials on generated chains and nests only). Outside the expression fragment there is no theorem: sites that still discard an error of a recursive sub-parse (parse_set `if let Ok(expr) = self.parse_expr()`, SET TIME ZONE `match self.parse_expr() { Ok.., _ => expected }`, parse_pg_alter_role, the deferred error in parse_duckdb_struct_type_def) are found by the oracle and are known findings of the current tree; a new signature is a violation. The oracle compares with limit 1000, not with 'no limit': inputs whose unlimited parse needs more than 1000 levels are skipped (none in the corpus).",
     technique="Lean 4 proof (simultaneous fuel induction: limit-monotonicity of the mutual Pratt model; abstract backtracking-combinator theorem with kernel-decided counterexamples for the swallowing variant) + limit-ladder differential on the real parse_expr + whole-grammar limit-ladder oracle on the corpus",
     trusted_base=PRATT_TB,
